@@ -182,10 +182,15 @@ def path(ctx, fam):
     if acc != spec:
         viol('accept_iff_grammar', m0, 'accepted=%s but Appendix B membership=%s' % (acc, spec), accepted=acc)
     if not acc:
+        if len(cs) <= 5 or fam.get('name', '').endswith('digits'):
+            import c08
+            c08.check_cli(ctx, I, w, cs, False, None, 'pep440', fam)
         return
     v = r.fields[0]
     try:
         printed = list(I.call('<PEP440 as ToString>::to_string', [ValPtr(v)]).chars)
+        import c08
+        c08.check_cli(ctx, I, w, cs, True, printed, 'pep440', fam)
     except Panic as e:
         viol('panic', w.get_model(), 'to_string: ' + str(e))
         return
